@@ -121,7 +121,7 @@ theorem nameUsed_iff {st : St} (h : Inv st) (name : Key) (ex : Option Nat) :
         rw [← hs] at hn; exact hn
       · simp [e] at hs
 
-theorem step_ok {st : St} (h : Inv st) (op : Op) (hc : stepOwn st op = true) :
+theorem step_ok {st : St} (h : Inv st) (op : Op) :
     Inv (step st op).1 ∧ abs (step st op).1 = specNext (abs st) op (step st op).2 ∧
     OutOk (abs st) st.next op (step st op).2 := by
   cases op with
@@ -149,14 +149,19 @@ theorem step_ok {st : St} (h : Inv st) (op : Op) (hc : stepOwn st op = true) :
             simp [abs, get_put, ht2]
         · simp [abs, get_put, hid]
   | update t id name pager slack =>
-    simp only [stepOwn] at hc
     simp only [step]
     cases hg : st.rows.get id with
     | none =>
       have hn : abs st t id = none := by simp [abs, hg]
       exact ⟨h, rfl, Or.inl ⟨hn, rfl⟩⟩
     | some r =>
-      simp only [hg, decide_eq_true_eq] at hc
+      by_cases hc : ¬ r.org = t
+      · -- a contact of another org: answered like a contact that does not exist, nothing changes
+        have hn : abs st t id = none := by simp [abs, hg, hc]
+        simp only [ne_eq, hc, not_false_eq_true, if_true]
+        exact ⟨h, rfl, Or.inl ⟨hn, rfl⟩⟩
+      have hc : r.org = t := Classical.not_not.mp hc
+      simp only [ne_eq, hc, not_true_eq_false, if_false]
       have hn : abs st t id = some (r.name, r.pager, r.slack) := by simp [abs, hg, hc]
       have hne : abs st t id ≠ none := by rw [hn]; simp
       by_cases hu : nameUsed st.rows name (some id) = true
@@ -181,14 +186,18 @@ theorem step_ok {st : St} (h : Inv st) (op : Op) (hc : stepOwn st op = true) :
               simp [abs, get_put, ht, ht2, hg, ht3]
           · simp [abs, get_put, hid]
   | delete t id =>
-    simp only [stepOwn] at hc
     simp only [step]
     cases hg : st.rows.get id with
     | none =>
       have hn : abs st t id = none := by simp [abs, hg]
       exact ⟨h, by simp [specNext], by simp [OutOk, Spec.delete, hn]⟩
     | some r =>
-      simp only [hg, decide_eq_true_eq] at hc
+      by_cases hc : ¬ r.org = t
+      · have hn : abs st t id = none := by simp [abs, hg, hc]
+        simp only [ne_eq, hc, not_false_eq_true, if_true]
+        exact ⟨h, by simp [specNext], by simp [OutOk, Spec.delete, hn]⟩
+      have hc : r.org = t := Classical.not_not.mp hc
+      simp only [ne_eq, hc, not_true_eq_false, if_false]
       have hn : abs st t id = some (r.name, r.pager, r.slack) := by simp [abs, hg, hc]
       refine ⟨⟨keys_del_nodup _ _ h.nodup, ?_⟩, ?_, by simp [OutOk, Spec.delete, hn]⟩
       · intro id' hid
@@ -227,15 +236,19 @@ theorem step_ok {st : St} (h : Inv st) (op : Op) (hc : stepOwn st op = true) :
         · simp [e] at hs
   | restart => exact ⟨h, rfl, by simp [step, OutOk]⟩
 
-theorem refines_of_inv (ops : List Op) : ∀ (st : St), Inv st → OwnIds st ops = true → Refines (abs st) st ops := by
+theorem refines_of_inv (ops : List Op) : ∀ (st : St), Inv st → Refines (abs st) st ops := by
   induction ops with
-  | nil => intro _ _ _; trivial
+  | nil => intro _ _; trivial
   | cons op r ih =>
-    intro st h hc
-    simp only [OwnIds, Bool.and_eq_true] at hc
-    obtain ⟨h1, h2, h3⟩ := step_ok h op hc.1
+    intro st h
+    obtain ⟨h1, h2, h3⟩ := step_ok h op
     refine ⟨h3, h2, ?_⟩
-    rw [← h2]; exact ih _ h1 hc.2
+    rw [← h2]; exact ih _ h1
+
+theorem inv_run (ops : List Op) : ∀ (st : St), Inv st → Inv (run st ops).1 := by
+  induction ops with
+  | nil => intro st h; exact h
+  | cons op r ih => intro st h; simpa [run] using ih _ (step_ok h op).1
 
 theorem abs_init : abs init = Spec.empty := by funext t id; simp [abs, init, AL.get, Spec.empty]
 
@@ -299,46 +312,174 @@ theorem unique_step {st : St} (h : Unique st) (op : Op) : Unique (step st op).1 
   | update t id0 name msg cid =>
     simp only [step]
     split
-    · exact h
+    · split <;> exact h
     · split
       · exact h
       · split
         · exact h
         · split
           · exact h
-          · rename_i hu
-            have hu' : nameUsed st.alerts name (some id0) = false := by simpa using hu
-            intro id id' r r' hg hg' hn
-            simp only [get_put] at hg hg'
-            by_cases e : id = id0 <;> by_cases e' : id' = id0
-            · rw [e, e']
-            · simp only [e, if_true, Option.some.injEq] at hg
-              simp only [e', if_false] at hg'
-              have := not_used hu' id' r' hg' (by rw [← hn, ← hg])
-              exact absurd (Option.some.inj this) e'
-            · simp only [e, if_false] at hg
-              simp only [e', if_true, Option.some.injEq] at hg'
-              have := not_used hu' id r hg (by rw [hn, ← hg'])
-              exact absurd (Option.some.inj this) e
-            · simp only [e, if_false] at hg
-              simp only [e', if_false] at hg'
-              exact h id id' r r' hg hg' hn
+          · split
+            · exact h
+            · rename_i hu
+              have hu' : nameUsed st.alerts name (some id0) = false := by simpa using hu
+              intro id id' r r' hg hg' hn
+              simp only [get_put] at hg hg'
+              by_cases e : id = id0 <;> by_cases e' : id' = id0
+              · rw [e, e']
+              · simp only [e, if_true, Option.some.injEq] at hg
+                simp only [e', if_false] at hg'
+                have := not_used hu' id' r' hg' (by rw [← hn, ← hg])
+                exact absurd (Option.some.inj this) e'
+              · simp only [e, if_false] at hg
+                simp only [e', if_true, Option.some.injEq] at hg'
+                have := not_used hu' id r hg (by rw [hn, ← hg'])
+                exact absurd (Option.some.inj this) e
+              · simp only [e, if_false] at hg
+                simp only [e', if_false] at hg'
+                exact h id id' r r' hg hg' hn
   | delete t id0 =>
     simp only [step]
     split
     · exact h
-    · intro id id' r r' hg hg' hn
-      simp only [get_del] at hg hg'
-      by_cases e : id = id0
-      · simp [e] at hg
-      · by_cases e' : id' = id0
-        · simp [e'] at hg'
-        · simp only [e, if_false] at hg
-          simp only [e', if_false] at hg'
-          exact h id id' r r' hg hg' hn
-  | get t id0 => simp only [step]; split <;> exact h
+    · split
+      · exact h
+      · intro id id' r r' hg hg' hn
+        simp only [get_del] at hg hg'
+        by_cases e : id = id0
+        · simp [e] at hg
+        · by_cases e' : id' = id0
+          · simp [e'] at hg'
+          · simp only [e, if_false] at hg
+            simp only [e', if_false] at hg'
+            exact h id id' r r' hg hg' hn
+  | get t id0 => simp only [step]; split <;> split <;> exact h
   | list t => exact h
   | restart => exact h
+
+/-- alert ids are below the id generator -/
+def Fresh (st : St) : Prop := ∀ id, st.alerts.get id ≠ none → id < st.nextA
+
+theorem fresh_init : Fresh init := by intro id h; simp [init, AL.get] at h
+
+theorem fresh_step {st : St} (h : Fresh st) (op : Op) : Fresh (step st op).1 := by
+  cases op with
+  | contact t name => simp only [step]; split <;> exact h
+  | create t name msg cid =>
+    simp only [step]
+    split
+    · exact h
+    · split
+      · exact h
+      · split
+        · exact h
+        · intro id hid
+          simp only [get_put] at hid
+          by_cases e : id = st.nextA
+          · rw [e]; exact Nat.lt_succ_self _
+          · simp only [e, if_false] at hid; exact Nat.lt_succ_of_lt (h id hid)
+  | update t id0 name msg cid =>
+    simp only [step]
+    split
+    · split <;> exact h
+    · rename_i r hg
+      split
+      · exact h
+      · split
+        · exact h
+        · split
+          · exact h
+          · split
+            · exact h
+            · intro id hid
+              simp only [get_put] at hid
+              by_cases e : id = id0
+              · rw [e]; exact h id0 (by rw [hg]; simp)
+              · simp only [e, if_false] at hid; exact h id hid
+  | delete t id0 =>
+    simp only [step]
+    split
+    · exact h
+    · split
+      · exact h
+      · intro id hid
+        simp only [get_del] at hid
+        by_cases e : id = id0
+        · simp [e] at hid
+        · simp only [e, if_false] at hid; exact h id hid
+  | get t id0 => simp only [step]; split <;> split <;> exact h
+  | list t => exact h
+  | restart => exact h
+
+theorem fresh_run (ops : List Op) : ∀ (st : St), Fresh st → Fresh (run st ops).1 := by
+  induction ops with
+  | nil => intro st h; exact h
+  | cons op r ih => intro st h; simp only [run]; exact ih _ (fresh_step h op)
+
+/-- a request of org `t` leaves every alert of another org as it is, and creates none for another org -/
+theorem frame_step {st : St} (h : Fresh st) (op : Op) (t : Nat) (ht : op.tenant = some t) (id : Nat) (r : Row)
+    (hne : r.org ≠ t) : (step st op).1.alerts.get id = some r ↔ st.alerts.get id = some r := by
+  cases op with
+  | contact t0 name => simp only [step]; split <;> rfl
+  | create t0 name msg cid =>
+    simp only [Op.tenant, Option.some.injEq] at ht; subst ht
+    simp only [step]
+    split
+    · rfl
+    · split
+      · rfl
+      · split
+        · rfl
+        · simp only [get_put]
+          by_cases e : id = st.nextA
+          · simp only [e, if_true, Option.some.injEq]
+            constructor
+            · intro hr; rw [← hr] at hne; exact absurd rfl hne
+            · intro hg; exact absurd (h st.nextA (by rw [hg]; simp)) (Nat.lt_irrefl _)
+          · simp only [e, if_false]
+  | update t0 id0 name msg cid =>
+    simp only [Op.tenant, Option.some.injEq] at ht; subst ht
+    simp only [step]
+    split
+    · split <;> rfl
+    · rename_i r0 hg0
+      split
+      · rfl
+      · rename_i horg
+        split
+        · rfl
+        · split
+          · rfl
+          · split
+            · rfl
+            · simp only [get_put]
+              by_cases e : id = id0
+              · simp only [e, if_true, Option.some.injEq]
+                have horg' : r0.org = t0 := Classical.not_not.mp horg
+                constructor
+                · intro hr; rw [← hr] at hne; exact absurd horg' hne
+                · intro hg; rw [hg0] at hg; rw [← Option.some.inj hg] at hne; exact absurd horg' hne
+              · simp only [e, if_false]
+  | delete t0 id0 =>
+    simp only [Op.tenant, Option.some.injEq] at ht; subst ht
+    simp only [step]
+    split
+    · rfl
+    · rename_i r0 hg0
+      split
+      · rfl
+      · rename_i horg
+        have horg' : r0.org = t0 := Classical.not_not.mp horg
+        simp only [get_del]
+        by_cases e : id = id0
+        · simp only [e, if_true]
+          constructor
+          · intro hr; cases hr
+          · intro hg; rw [hg0] at hg; rw [← Option.some.inj hg] at hne; exact absurd horg' hne
+        · simp only [e, if_false]
+  | get t0 id0 => simp only [step]; split <;> split <;> rfl
+  | list t0 => rfl
+  | restart => rfl
 
 theorem unique_run (ops : List Op) : ∀ (st : St), Unique st → Unique (run st ops).1 := by
   induction ops with
